@@ -1942,7 +1942,7 @@ Lemma pres_string : forall s n cur cont n',
   add_string n s cur cont = Ok n' -> (forall c, In c s -> okc c) -> allP n -> allP n'.
 Proof.
   induction s as [|c s IH]; intros n cur cont n' H Os A.
-  - injection H as <-. exact A.
+  - cbn [add_string] in H. eapply pres_eps; [exact H|exact A].
   - destruct s as [|c2 s].
     + cbn [add_string] in H. eapply pres_char; [exact H| |exact A]. apply Os. left. reflexivity.
     + change (add_string n (c :: c2 :: s) cur cont)
